@@ -16,6 +16,7 @@ from typing import Any
 from sa import mutate as M
 from sa.casesplit import Inconclusive, Refused, run_case, subst_ifexp
 from sa.consts import UNKNOWN
+from sa import pattern as PT
 from sa.ctx import Ctx
 from sa.layout import ints, write_atoms
 from sa.loader import AnalysisError, FuncInfo, call_name, norm, own_nodes, parent
@@ -363,7 +364,7 @@ def rule_legacy(ctx: Ctx, rep: Report) -> None:
     rep.ob(rule, "stripped_serialization", bool(ser), fi.where(), "the copy is serialized without witness")
     rep.ob(rule, "double_sha256", any(isinstance(r.value, ast.Call) and call_name(r.value) == "hash256" for r in rets), fi.where(), "returns hash256(preimage)")
     lc = ctx.func(f"{SH}._legacy_tx_copy")
-    txt = norm(lc.node)
+    txt = PT.text(lc)
     rep.ob(rule, "_legacy_tx_copy", "script_sig=b''" in txt and "new_tx.vin[vin_i].script_sig = script_code" in txt, lc.where(), "every script_sig blanked, the signed input's replaced by the script code")
     wc = ctx.func(f"{SH}._without_op_codeseparators")
     rep.ob(rule, "_without_op_codeseparators", any(isinstance(n, ast.If) and norm(n.test) == "op_code != OP_CODESEPARATOR" for n in own_nodes(wc.node)) and ctx.const(SH, "OP_CODESEPARATOR") == 0xAB,
